@@ -140,7 +140,7 @@ class LogsProfile:
             elif k < 0.7:
                 prev = [s for s in steps if s["kind"] == "reload"][-1]
                 steps.append({"kind": "reload", "ents": copy.deepcopy(prev["ents"]), "mode": "plain", "same": True})
-            elif k < 0.85:
+            elif k < 0.78:
                 prev = [s for s in steps if s["kind"] == "reload"][-1]
                 ents = copy.deepcopy(prev["ents"])
                 if ents:
@@ -148,6 +148,19 @@ class LogsProfile:
                     if rnd.random() < 0.5:
                         ents.pop()
                 steps.append({"kind": "reload", "ents": ents, "mode": "plain"})
+            elif k < 0.9:
+                # edit in place: same entry names, only the destination(s) of one or two entries change
+                prev = [s for s in steps if s["kind"] == "reload"][-1]
+                ents = copy.deepcopy(prev["ents"])
+                for _ in range(rnd.choice([1, 1, 2])):
+                    if not ents:
+                        break
+                    e = rnd.choice(ents)
+                    if isinstance(e[1], list):
+                        e[1] = [rnd.choice(FILES) for _ in range(rnd.choice([1, 2, 3]))]
+                    else:
+                        e[1] = rnd.choice([f for f in FILES if f != e[1]])
+                steps.append({"kind": "reload", "ents": ents, "mode": rnd.choice(["plain", "plain", "burst"]), "inplace": True})
             else:
                 txt = render(gen_section(rnd))
                 steps.append({"kind": "damaged", "text": rnd.choice([txt[:rnd.randrange(len(txt))], "logs { \"core.info\" ", "\x00\x01garbage", ""])})
@@ -226,6 +239,8 @@ class LogsProfile:
                     res.extra["reloads"] += 1
                     if routing(s["ents"]) == rt and s.get("same"):
                         res.extra["identical_reloads"] += 1
+                    if s.get("inplace"):
+                        res.extra["inplace_destination_edits"] = res.extra.get("inplace_destination_edits", 0) + 1
                     cur = s["ents"]
                     rt = routing(cur)
                     res.extra["entries"] += len(cur)
